@@ -42,36 +42,36 @@ theorem cleanArts_of_clean (a : Arts) (h : CleanArts a) : cleanArts a = a := by
       filter_nil_of_none _ _ (fun kv hkv => by simp [hk kv hkv])
     simp only [cleanArts, h1, h2, sortBy, List.foldr, List.foldl]
 
-theorem setSel_sel (t : ArtType) (l : LinkArts) : setSel t l (sel t l) = l := by
-  cases t <;> rfl
+theorem lookup_mem {β} (k : Str) (l : List (Str × β)) (v : β) (h : lookup k l = some v) :
+    (k, v) ∈ l := by
+  induction l with
+  | nil => cases h
+  | cons e t ih =>
+    obtain ⟨k', v'⟩ := e
+    unfold lookup at h
+    split at h
+    · cases h; subst k'; exact List.mem_cons_self ..
+    · exact List.mem_cons_of_mem _ (ih h)
 
-theorem ctxUpdate_clean (ctx : Ctx) (h : CleanCtx ctx) (name : Str) (t : ArtType) :
-    ctxUpdate ctx name (fun l => setSel t l (cleanArts (sel t l))) = ctx := by
-  unfold ctxUpdate
-  have : ∀ e ∈ ctx, (if e.1 = name then (e.1, e.2.map fun l => setSel t l (cleanArts (sel t l))) else e) = e := by
-    intro e he
-    split
-    · cases hv : e.2 with
-      | none =>
-        show (e.1, Option.map _ none) = e
-        simp only [Option.map]
-        rw [← hv]
-      | some l =>
-        have hc := h e he l hv
-        have : cleanArts (sel t l) = sel t l := by
-          apply cleanArts_of_clean
-          cases t
-          · exact hc.1
-          · exact hc.2
-        simp only [Option.map, this, setSel_sel]
-        rw [← hv]
-    · rfl
-  induction ctx with
-  | nil => rfl
-  | cons e rest ih =>
-    simp only [List.map]
-    rw [this e (by simp)]
-    rw [ih (fun e' he' => h e' (by simp [he'])) (fun e' he' => this e' (by simp [he']))]
+/-- every artifact map read out of a context with clean names has clean names -/
+theorem ctxArts_clean (ctx : Ctx) (h : CleanCtx ctx) (name : Str) (t : ArtType) :
+    CleanArts (ctxArts ctx name t) := by
+  unfold ctxArts
+  cases hl : lookup name ctx with
+  | none => intro k hk; cases hk
+  | some o =>
+    cases o with
+    | none => intro k hk; cases hk
+    | some l =>
+      have hc := h _ (lookup_mem _ _ _ hl) l rfl
+      cases t
+      · exact hc.1
+      · exact hc.2
+
+/-- on a context with clean names the cleaned COPY of a map that `verifyMatchRule` reads is the map -/
+theorem cleanArts_ctxArts (ctx : Ctx) (h : CleanCtx ctx) (name : Str) (t : ArtType) :
+    cleanArts (ctxArts ctx name t) = ctxArts ctx name t :=
+  cleanArts_of_clean _ (ctxArts_clean ctx h name t)
 
 theorem contains_filter (q : List Str) (p : Str → Bool) (x : Str) :
     (q.filter p).contains x = (q.contains x && p x) := by
@@ -198,10 +198,7 @@ theorem ruleStep_spec (E : Env) (h : CleanCtx E.ctx) (r : Rule) (q : List Str) :
         simp only [this, filter_false]
       | some dst =>
         simp only
-        have e1 := ctxUpdate_clean E.ctx h E.srcName E.srcType
-        rw [e1]
-        have e2 := ctxUpdate_clean E.ctx h dn dt
-        rw [e2]
+        rw [cleanArts_ctxArts E.ctx h E.srcName E.srcType, cleanArts_ctxArts E.ctx h dn dt]
         have hdst : ctxArts E.ctx dn dt = sel dt dst := by simp [ctxArts, hd]
         rw [hdst]
         congr 1
